@@ -16,6 +16,7 @@ from .engine import Result, short
 from .fsck import Fsck, bit, F_PAGE, F_CRAWLED
 from .model import Model, stem_prefixes
 from .twins import Fail, run_op, _rules
+from .runner import known
 from .workload import Gen, wchoice
 
 POLICIES = ("uniform", "sticky", "round_robin", "starve_one", "switch_after_write", "sequential")
@@ -110,6 +111,31 @@ def qualifies_page(snap, prefixes, lru):
             if not inner:
                 return True
     return False
+
+
+def _nested_during_query(life, prefixes, lru):
+    """Signature of known finding F12: the listed page lies below one of the
+    query's prefixes; whenever it exists as a page it is cut off from that
+    prefix by a webentity prefix Q (P < Q <= page) that did not exist when the
+    query started, i.e. a webentity nested into the walked subtree while the
+    walk was suspended."""
+    own = [p for p in prefixes if lru.startswith(p)]
+    if not own:
+        return False
+    first = life[0]
+    seen_as_page = False
+    for sn in life:
+        if lru not in sn["pages"]:
+            continue
+        seen_as_page = True
+        ok = False
+        for p in own:
+            inner = [q for q in stem_prefixes(lru) if len(q) > len(p) and q in sn["pref"]]
+            if inner and all(q not in first["pref"] for q in inner):
+                ok = True
+        if not ok:
+            return False
+    return seen_as_page
 
 
 class Scheduler(object):
@@ -382,10 +408,68 @@ def run_C16(case):
                         raise Fail("C16.page_query_complete", "page query of webentity %r missed pages that qualified throughout: %s; schedule %s" % (tk.spec["weid"], short(miss), short(sch.schedule, 300)))
                     res.evals["C16.page_query_sound"] += 1
                     bad = sorted(set(answer) - sometime)
+                    if bad and all(_nested_during_query(life, prefs, l) for l in bad) and known("C16", "page_listed_under_webentity_nested_during_query"):
+                        # known finding F12, tolerated by this signature only
+                        res.probes["known:page_listed_under_webentity_nested_during_query"] += 1
+                        bad = []
                     if bad:
                         raise Fail("C16.page_query_sound", "page query of webentity %r lists pages that qualified at no moment: %s; schedule %s" % (tk.spec["weid"], short(bad), short(sch.schedule, 300)))
                     if len(life) > 2 and sometime != always:
                         res.probes["page_query_overlapped_membership_change"] += 1
+                elif k in ("we_outlinks", "we_inlinks"):
+                    prefs = set(tk.spec["prefixes_b"])
+                    key = "out" if k == "we_outlinks" else "in"
+                    first, fin = life[0], life[-1]
+                    answer = set(x for x in tk.result if x is not None)
+
+                    def own_end(link):
+                        return link[0] if key == "out" else link[1]
+
+                    def other_end(link):
+                        return link[1] if key == "out" else link[0]
+
+                    must = set()
+                    for link, w_ in first[key].items():
+                        p_, o_ = own_end(link), other_end(link)
+                        if all(qualifies_page(sn, prefs, p_) for sn in life):
+                            rs = {sn["pref"].get(resolve_in(sn["pref"], o_)) for sn in life}
+                            if len(rs) == 1 and None not in rs:
+                                must.add(next(iter(rs)))
+                    may = set()
+                    for link, w_ in fin[key].items():
+                        p_, o_ = own_end(link), other_end(link)
+                        if any(p_.startswith(q_) for q_ in prefs):
+                            for sn in life:
+                                r_ = sn["pref"].get(resolve_in(sn["pref"], o_))
+                                if r_ is not None:
+                                    may.add(r_)
+                    res.evals["C16.cited_complete"] += 1
+                    if must - answer:
+                        raise Fail("C16.cited_complete", "%s query of webentity %r misses webentities %s that were linked throughout; answer %s; schedule %s" % (k, tk.spec["weid"], sorted(must - answer), sorted(answer), short(sch.schedule, 300)))
+                    res.evals["C16.cited_sound"] += 1
+                    if answer - may:
+                        raise Fail("C16.cited_sound", "%s query of webentity %r lists webentities %s that were linked at no moment; schedule %s" % (k, tk.spec["weid"], sorted(answer - may), short(sch.schedule, 300)))
+                elif k == "we_most_linked":
+                    if all(sn["pages"] == life[0]["pages"] and sn["in"] == life[0]["in"] and sn["pref"] == life[0]["pref"] for sn in life):
+                        # nothing changed during this query: the answer must be the quiescent one
+                        sn = life[0]
+                        prefs = set(tk.spec["prefixes_b"])
+                        elig = {}
+                        for l_ in sn["pages"]:
+                            if qualifies_page(sn, prefs, l_):
+                                elig[l_] = len({a_ for (a_, b_) in sn["in"] if b_ == l_})
+                        kk = tk.spec.get("k", 3)
+                        got = [(d_["lru"], d_["indegree"]) for d_ in tk.result]
+                        res.evals["C16.most_linked_quiescent"] += 1
+                        adj = {l_: (v_ if v_ else 1) for l_, v_ in elig.items()}  # F4 (known finding of C20) reports 1 for 0
+                        bad_ = (
+                            len(got) != min(kk, len(elig))
+                            or any(l_ not in elig for l_, _ in got)
+                            or any(d_ not in (elig[l_], adj[l_]) for l_, d_ in got if l_ in elig)
+                            or (got and any(adj[l_] > min(adj[x_] for x_, _ in got) for l_ in elig if l_ not in [x_ for x_, _ in got]))
+                        )
+                        if bad_:
+                            raise Fail("C16.most_linked_quiescent", "most-linked query of webentity %r, although nothing changed during its execution, answers %s; eligible pages with indegrees %s; schedule %s" % (tk.spec["weid"], short(got), short(sorted(elig.items())), short(sch.schedule, 300)))
                 elif k == "we_pagelinks":
                     fin = snaps[-1]
                     res.evals["C16.pagelinks_sound"] += 1
@@ -450,8 +534,10 @@ def run_C16(case):
                     if first[key] != lastq[key]:
                         res.probes["network_query_overlapped_link_writes"] += 1
             writers = [tk for tk in tasks if tk.spec["kind"] in ("batch", "rule", "add_page", "add_links")]
-            if switches and len(writers) >= 1 and len(tasks) >= 2:
+            if switches and len(tasks) >= 2:
                 res.nontrivial = True
+            if not writers:
+                res.probes["read_only_interleaving"] += 1
             if switches_after_write:
                 res.probes["switch_right_after_a_write"] += switches_after_write
             if len([tk for tk in tasks if tk.spec["kind"] == "batch"]) >= 2:
@@ -486,9 +572,10 @@ def gen_C16(rng, tier, seed):
     ntasks = rng.choice([2, 2, 3, 3])
     big = tier == "thorough" and rng.random() < 0.4
     kinds = []
-    kinds.append("batch")
+    if rng.random() < 0.85:
+        kinds.append("batch")
     while len(kinds) < ntasks:
-        kinds.append(wchoice(rng, {"batch": 3, "rule": 1.5, "we_pages": 2, "network": 2, "add_page": 0.7, "add_links": 0.7, "network_slow": 0.8, "we_pagelinks": 0.8, "we_children": 0.4, "we_crawled_pages": 0.4, "we_most_linked": 0.4, "we_outlinks": 0.3, "we_inlinks": 0.3}))
+        kinds.append(wchoice(rng, {"batch": 3, "rule": 1.5, "we_pages": 2, "network": 2, "add_page": 0.7, "add_links": 0.7, "network_slow": 0.8, "we_pagelinks": 0.8, "we_children": 0.4, "we_crawled_pages": 0.4, "we_most_linked": 0.6, "we_outlinks": 0.7, "we_inlinks": 0.7}))
     rng.shuffle(kinds)
     for k in kinds:
         if k == "batch":
